@@ -405,8 +405,18 @@ def subst(t, env):
     raise ValueError(t)
 
 
-def enum_default_base(d):
-    return d.get("base") or "int32"
+def enum_default_base(d, home=None):
+    """the integer primitive an enum is stored as: int32 when no base is given; a base may also be a named alias (chain) of an integer primitive"""
+    b = d.get("base") or "int32"
+    for _ in range(10):
+        if b in INT_RANGE or home is None:
+            return b
+        a, home2 = home.find(b)
+        t = a["type"]
+        b = t[1]
+        if t[0] == "named":
+            home = home2
+    return b
 
 
 def resolve(pkg, t):
@@ -417,7 +427,7 @@ def resolve(pkg, t):
     if k == "named":
         d, home = pkg.find(t[1])
         if d["kind"] == "enum":
-            return ["enum", enum_default_base(d), d["flags"], [[s, v] for s, v in d["values"]]]
+            return ["enum", enum_default_base(d, home), d["flags"], [[s, v] for s, v in d["values"]]]
         args = [a for a in t[2]]
         # type arguments are written in pkg's scope; the body in home's scope. Resolve args first by
         # closing them over pkg: we substitute *resolved markers*.
@@ -726,6 +736,12 @@ class Gen:
                         break
                 vals.append((f"v{i}", v))
         self.hit("def.flags" if flags else "def.enum")
+        if base is not None and r.random() < 0.35:
+            # the base type through a named alias (the enum is stored as the alias's primitive)
+            alias = self.fresh("Base")
+            pkg.defs.append({"kind": "alias", "name": alias, "tparams": [], "type": ("prim", base)})
+            base = alias
+            self.hit("def.enum-base-through-alias")
         d = {"kind": "enum", "name": name, "flags": flags, "base": base, "values": vals, "auto": auto}
         pkg.defs.append(d)
         return d
@@ -1194,6 +1210,16 @@ def untagged_unions_package(namespace="Unt", small=False):
     half = len(steps) // 2
     pkg.defs.append({"kind": "protocol", "name": "PUntA", "steps": steps[:half] + [("recs", ("named", "UFields", []), True)]})
     pkg.defs.append({"kind": "protocol", "name": "PUntB", "steps": steps[half:]})
+    # cases that are named aliases (of a primitive, a record, a vector) and instances of a generic alias
+    pkg.defs.append({"kind": "alias", "name": "UIntAlias", "tparams": [], "type": P("int32")})
+    pkg.defs.append({"kind": "alias", "name": "URecAlias", "tparams": [], "type": ("named", "URec", [])})
+    pkg.defs.append({"kind": "alias", "name": "UVecAlias", "tparams": [], "type": ("vec", P("float32"), None)})
+    pkg.defs.append({"kind": "alias", "name": "UGenAlias", "tparams": ["T"], "type": ("vec", ("tparam", "T"), None)})
+    pkg.defs.append({"kind": "protocol", "name": "PUntAliases", "steps": [
+        ("ia", ("union", False, [(None, ("named", "UIntAlias", [])), (None, P("string"))]), True),
+        ("ra", ("union", True, [(None, ("named", "URecAlias", [])), (None, P("bool"))]), True),
+        ("va", ("union", False, [("vecA", ("named", "UVecAlias", [])), ("intA", ("named", "UIntAlias", [])), ("recA", ("named", "URecAlias", []))]), True),
+        ("ga", ("union", False, [("genA", ("named", "UGenAlias", [P("int32")])), ("strA", P("string"))]), False)]})
     # three distinct kinds at once, every rotation
     tri = [P("bool"), P("int32"), P("string")]
     pkg.defs.append({"kind": "protocol", "name": "PUntC", "steps": [
@@ -1211,6 +1237,11 @@ def directed_package(namespace="Dir"):
                      "values": [("a", 0), ("b", 7), ("c", 65535)]})
     pkg.defs.append({"kind": "enum", "name": "DF", "flags": True, "base": None, "auto": True,
                      "values": [("x", 1), ("y", 2), ("z", 4)]})
+    pkg.defs.append({"kind": "alias", "name": "RegWidth", "tparams": [], "type": P("uint8")})
+    pkg.defs.append({"kind": "alias", "name": "WideReg", "tparams": [], "type": P("uint16")})
+    pkg.defs.append({"kind": "alias", "name": "WideRegAgain", "tparams": [], "type": ("named", "WideReg", [])})
+    pkg.defs.append({"kind": "enum", "name": "DEA", "flags": False, "base": "RegWidth", "auto": False, "values": [("a", 0), ("b", 200), ("c", 255)]})
+    pkg.defs.append({"kind": "enum", "name": "DFA", "flags": True, "base": "WideRegAgain", "auto": False, "values": [("x", 1), ("y", 256), ("z", 32768)]})
     pkg.defs.append({"kind": "record", "name": "Pix", "tparams": [],
                      "fields": [("r", P("uint8")), ("g", P("uint8")), ("b", P("uint8"))]})
     pkg.defs.append({"kind": "record", "name": "Mixed", "tparams": [],
@@ -1281,6 +1312,12 @@ def directed_package(namespace="Dir"):
     # a flags value outside the declared bits is written as a number: next to a numeric case the union must be tagged
     steps.append(("ufi", ("union", False, [(None, ("named", "DF", [])), (None, P("int32"))]), True))
     steps.append(("ufs", ("union", True, [(None, ("named", "DF", [])), (None, P("string"))]), True))
+    # enums / flags stored as the primitive their aliased base names: as steps, vector items, map values, array elements
+    steps.append(("dea", ("named", "DEA", []), True))
+    steps.append(("dfa", ("named", "DFA", []), False))
+    steps.append(("deav", ("vec", ("named", "DEA", []), None), True))
+    steps.append(("dfam", ("map", P("string"), ("named", "DFA", [])), False))
+    steps.append(("deaa", ("arr", ("named", "DEA", []), ("rank", 1, None)), True))
     pkg.defs.append({"kind": "protocol", "name": "PMapUnion", "steps": steps})
     return pkg
 
